@@ -98,8 +98,8 @@ PROPS["C14"] = {
     "bounds": {
         "quick": "probe operators on u64 that log (call index, input, word drawn) and fail at a SYMBOLIC global call index; all inputs and all "
                  "random words symbolic (SymRng); compositions: then, and, map over [T;2] / (T,T) / Vec of length 0..=3, repeat N=0..=3, apply_twice, "
-                 "three nestings of depth 2-3 (4, 4 and 5 component calls), select->extract->mutate pipeline, wrappers by value / & / &mut",
-        "thorough": "as quick plus the depth-3 nesting ((P1 then P2) twice) then_map P3 with 6 component calls and a symbolic failing call",
+                 "two nestings of depth 3 (4 and 5 component calls), select->extract->mutate pipeline, wrappers by value / & / &mut",
+        "thorough": "as quick plus (P1 then P2) twice (4 calls) and the depth-3 nesting ((P1 then P2) twice) then_map P3 with 6 component calls, symbolic failing call",
     },
     "outside": "compositions nested deeper than 3 or with more than 6 component calls; vectors longer than 3 (the combinators are not recursive: "
                "deeper nestings are compositions of the verified cases, an induction that is not machine-checked)",
